@@ -256,6 +256,14 @@ func runC07(cfg Config) {
 			b, _ := os.ReadFile(out)
 			return result{err, bytes.Equal(b, blob), fmt.Sprintf("output has %d bytes, equal=%v", len(b), bytes.Equal(b, blob))}
 		}},
+		{"AssembleFile+seed(many segments,skip)", "PlanValidate.feed", 3, func(ctx context.Context, n int) result {
+			e, ok, d := assembleWithSegmentedSeed(ctx, cfg, n, idx, blob, full, desync.InvalidSeedActionSkip)
+			return result{e, ok, d}
+		}},
+		{"AssembleFile+seed(many segments,regenerate)", "PlanValidate.feed", 3, func(ctx context.Context, n int) result {
+			e, ok, d := assembleWithSegmentedSeed(ctx, cfg, n, idx, blob, full, desync.InvalidSeedActionRegenerate)
+			return result{e, ok, d}
+		}},
 		{"UnTarIndex", "UnTarIndex.feed", len(tarIdx.Chunks), func(ctx context.Context, n int) result {
 			fs := &recFS{}
 			err := desync.UnTarIndex(ctx, fs, tarIdx, tarStore, n, desync.NewProgressBar(""))
@@ -278,7 +286,8 @@ func runC07(cfg Config) {
 			if !strings.HasPrefix(f.name, "VerifyIndex") && (r0.err != nil || !r0.complete) {
 				monitor(fmt.Sprintf("uncancelled run did not complete: err=%v %s", r0.err, r0.detail), base)
 			}
-			for k := -1; k <= total; k++ {
+			hung := 0
+			for k := -1; k <= total && hung < 2; k++ { // (two runs that do not return are enough evidence; their goroutines keep spinning)
 				ctx, cancel := context.WithCancel(context.Background())
 				if k == -1 {
 					cancel() // cancelled before the call
@@ -292,6 +301,7 @@ func runC07(cfg Config) {
 				case <-time.After(20 * time.Second):
 					r = result{errors.New("hang"), false, "no return within 20 s"}
 					monitor("operation hangs after cancellation", fmt.Sprintf("cancel fn=%s n=%d k=%d", f.name, n, k))
+					hung++
 				}
 				restore()
 				cancel()
@@ -312,7 +322,7 @@ func runC07(cfg Config) {
 	// operation talks to), for every k incl. the calls of the very last jobs: the feeder has nothing left to
 	// flag then, the workers themselves must not drop their job quietly
 	for _, f := range fns {
-		if strings.HasPrefix(f.name, "VerifyIndex") || strings.HasPrefix(f.name, "AssembleFile+seed") {
+		if strings.HasPrefix(f.name, "VerifyIndex") || strings.HasPrefix(f.name, "AssembleFile+seed(validate)") {
 			continue // no store involved
 		}
 		for _, n := range ns {
@@ -557,6 +567,35 @@ func (c *cancelAfterReader) Read(p []byte) (int, error) {
 		c.cancel()
 	}
 	return n, err
+}
+
+// assembleWithSegmentedSeed: AssembleFile with a file seed that shares every other chunk with the blob, so that the
+// plan holds many seed segments (a validation that is cut short by a cancellation has many hand-outs left)
+func assembleWithSegmentedSeed(ctx context.Context, cfg Config, n int, idx desync.Index, blob []byte, store desync.Store, act desync.InvalidSeedAction) (error, bool, string) {
+	out := filepath.Join(cfg.Work, "out")
+	os.Remove(out)
+	seedFile := filepath.Join(cfg.Work, "segseed")
+	var sb []byte
+	var sidx desync.Index
+	sidx.Index = idx.Index
+	for i, c := range idx.Chunks {
+		var d []byte
+		if i%2 == 0 {
+			d = blob[c.Start : c.Start+c.Size]
+		} else {
+			d = bytes.Repeat([]byte{byte(i), 0xa5}, 20+i)
+		}
+		sidx.Chunks = append(sidx.Chunks, desync.IndexChunk{ID: desync.Digest.Sum(d), Start: uint64(len(sb)), Size: uint64(len(d))})
+		sb = append(sb, d...)
+	}
+	os.WriteFile(seedFile, sb, 0644)
+	seed, err := desync.NewIndexSeed(out, seedFile, sidx)
+	if err != nil {
+		return err, false, "seed"
+	}
+	_, err = desync.AssembleFile(ctx, out, idx, store, []desync.Seed{seed}, desync.AssembleOptions{N: n, InvalidSeedAction: act})
+	b, _ := os.ReadFile(out)
+	return err, bytes.Equal(b, blob), fmt.Sprintf("output has %d bytes, equal=%v", len(b), bytes.Equal(b, blob))
 }
 
 func runC06(cfg Config) {
